@@ -129,6 +129,15 @@ def valid_templates(tier="quick"):
     ops, nb = common_ops([{"op": "rm", "path": "dd2", "label": "rm dd2"}])
     T.append(_mk("two_level", [Variant("v0", st)], {"dd1.in": dd5a, "dd2.in": dd5b}, ops, [nb], depth, ["produced", "two-level"]))
 
+    # D7: the producer of a dyndep-discovered input has a validation whose own inputs are ready
+    dd7 = dyndep_text([("out", [], ["h"], False)])
+    st = [Stmt("dd", ex=["dd.in"], copy=True), Stmt("check", ex=["check.in"]), Stmt("h", ex=["h.in"], val=["check"]),
+          Stmt("out", ex=["in"], oo=["dd"], dyndep="dd", extra_reads=["h"]), Stmt("top", ex=["out"])]
+    ops, nb = common_ops([{"op": "touch", "path": "dd.in", "label": "touch dd.in"}, {"op": "edit", "path": "check.in", "label": "edit check.in"},
+                          {"op": "rm", "path": "check", "label": "rm check"}])
+    T.append(_mk("validation_of_discovered", [Variant("v0", st, defaults=["top"])], {"dd.in": dd7}, ops, [nb], depth, ["produced", "validation"]))
+    T.append(_mk("validation_of_discovered/fresh", [Variant("v0", st, defaults=["top"])], {"dd.in": dd7}, ops, [], 2, ["produced", "validation", "fresh"]))
+
     # D6: restat supplied by the dyndep file
     dd6 = dyndep_text([("out", [], [], True)])
     o = Stmt("out", ex=["in"], oo=["dd"], dyndep="dd", restat=False)
